@@ -245,6 +245,10 @@ fn nat_absorbing(ctx: &mut Ctx, rng: &mut Rng) {
             chk(ctx, &format!("DateTime<{u:?}> - TimeDelta(NaT)"), catch(|| (t_ok - d_nat).is_nat()));
             chk(ctx, &format!("DateTime<{u:?}>(NaT) - DateTime"), catch(|| (t_nat - t_ok).is_nat()));
             chk(ctx, &format!("DateTime<{u:?}> - DateTime(NaT)"), catch(|| (t_ok - t_nat).is_nat()));
+            // both operands null: equal raw sentinels must not look like "equal instants"
+            chk(ctx, &format!("DateTime<{u:?}>(NaT) - DateTime(NaT)"), catch(|| (t_nat - t_nat).is_nat()));
+            chk(ctx, &format!("DateTime<{u:?}>(NaT) + TimeDelta(NaT)"), catch(|| (t_nat + d_nat).is_nat()));
+            chk(ctx, &format!("DateTime<{u:?}>(NaT) - TimeDelta(NaT)"), catch(|| (t_nat - d_nat).is_nat()));
             chk(ctx, &format!("DateTime<{u:?}>(NaT).duration_trunc"), catch(|| t_nat.duration_trunc(TimeDelta::from(Duration::hours(1))).is_nat()));
         });
     }
@@ -253,10 +257,15 @@ fn nat_absorbing(ctx: &mut Ctx, rng: &mut Rng) {
     chk(ctx, "d + TimeDelta(NaT)", catch(|| (d_mo + d_nat).is_nat()));
     chk(ctx, "TimeDelta(NaT) - d", catch(|| (d_nat - d_ok).is_nat()));
     chk(ctx, "d - TimeDelta(NaT)", catch(|| (d_ok - d_nat).is_nat()));
+    chk(ctx, "TimeDelta(NaT) + TimeDelta(NaT)", catch(|| (d_nat + d_nat).is_nat()));
+    chk(ctx, "TimeDelta(NaT) - TimeDelta(NaT)", catch(|| (d_nat - d_nat).is_nat()));
+    chk(ctx, "TimeDelta(NaT) * 0", catch(|| (d_nat * 0).is_nat()));
     chk(ctx, "TimeDelta(NaT) * k", catch(|| (d_nat * k).is_nat()));
     let tm = Time::from_hms(rng.range_i64(0, 23), rng.range_i64(0, 59), rng.range_i64(0, 59));
     chk(ctx, "Time + TimeDelta(NaT)", catch(|| (tm + d_nat).is_nat()));
     chk(ctx, "Time - TimeDelta(NaT)", catch(|| (tm - d_nat).is_nat()));
+    chk(ctx, "Time(NaT) + TimeDelta(NaT)", catch(|| (Time::nat() + d_nat).is_nat()));
+    chk(ctx, "Time(NaT) - TimeDelta(NaT)", catch(|| (Time::nat() - d_nat).is_nat()));
     chk(ctx, "Time(NaT) + d", catch(|| (Time::nat() + d_ok).is_nat()));
     chk(ctx, "Time(NaT) - d", catch(|| (Time::nat() - d_ok).is_nat()));
 }
@@ -287,7 +296,7 @@ fn stamps(rng: &mut Rng, u: U) -> Vec<i64> {
 
 fn main() {
     let mut ctx = Ctx::from_args("C16");
-    let reps = ctx.budget(30, 600);
+    let reps = ctx.cbudget(30, 600);
     for _ in 0..reps {
         if let Some(mut rng) = ctx.random_case() {
             for from in UNITS {
